@@ -21,7 +21,7 @@ RULE = (
 )
 ASSUMPTIONS = [
     "'now' is pinned at hh:mm:30, so a start equal to the current minute has already passed",
-    "the local date supplies the weekday (the week of 15-21 July 2024, no offset changes in the listed zones)",
+    "the local date supplies the weekday: the week of 15-21 July 2024 (no offset changes) for the main grid, and the seven days up to and including every 2024 offset change of four DST zones for a reduced grid",
 ]
 
 ZONES = ["UTC", "Asia/Jerusalem", "America/New_York", "Pacific/Kiritimati", "Pacific/Pago_Pago", "Asia/Kathmandu"]
@@ -49,6 +49,9 @@ def ref_next_run(weekday, now_m, start_m, days):
 
 
 def pairs(tier):
+    if tier.startswith("dst-"):
+        g = [0, 1, 20, 59, 60, 61, 120, 180, 720, 1380, 1410, 1438, 1439]
+        return sorted(set(itertools.product(g, [0, 30, 720, 1439])) | {(m, m + d) for m in g for d in (-1, 0, 1) if 0 <= m + d < 1440})
     ps = set(itertools.product(GRID, GRID))
     step = 1 if tier == "thorough" else 7
     for m in range(0, 1440, step):
@@ -65,11 +68,20 @@ def day_sets():
     return out
 
 
+DST_ZONES = ["Asia/Jerusalem", "America/New_York", "Europe/Berlin", "Australia/Lord_Howe"]
+
+
 def jobs(tier, seed):
-    return [{"zone": z, "weekday": wd, "tier": tier} for z in ZONES for wd in range(7)]
+    js = [{"zone": z, "weekday": wd, "tier": tier} for z in ZONES for wd in range(7)]
+    # the days before an offset change (the next run lies beyond the change), and the day of the change itself
+    for z in DST_ZONES:
+        for t in Z.transition_days(z):
+            for back in range(0, 7):
+                js.append({"zone": z, "date": (t - datetime.timedelta(days=back)).isoformat(), "tier": "dst-" + tier})
+    return js
 
 
-def check(res, zone, weekday, now_m, start_m, days, D, via):
+def check(res, zone, weekday, now_m, start_m, days, D, via, date=None):
     from aioswitcher.schedule import tools
     from aioswitcher.schedule.parser import SwitcherSchedule
 
@@ -77,6 +89,8 @@ def check(res, zone, weekday, now_m, start_m, days, D, via):
     dayset = {D[i] for i in days}
     exp = ref_next_run(weekday, now_m, start_m, set(days))
     case = {"zone": zone, "weekday": weekday, "now_m": now_m, "start_m": start_m, "days": list(days), "via": via}
+    if date is not None:
+        case["date"] = date
     try:
         if via == "fn":
             out = tools.pretty_next_run(hhmm, dayset) if days else tools.pretty_next_run(hhmm)
@@ -104,28 +118,47 @@ def run_job(job):
     from aioswitcher.schedule import Days
 
     res = Res()
-    zone, wd = job["zone"], job["weekday"]
+    zone = job["zone"]
     D = list(Days)
-    date = MONDAY + datetime.timedelta(days=wd)
+    if "date" in job:
+        date = datetime.date.fromisoformat(job["date"])
+        wd = date.weekday()
+    else:
+        wd = job["weekday"]
+        date = MONDAY + datetime.timedelta(days=wd)
     set_zone(zone)
     sets = day_sets()
     with Clock(0.0) as clk:
         last_now = None
         for now_m, start_m in pairs(job["tier"]):
+            if not Z.local_to_epochs(zone, date, now_m // 60, now_m % 60, 30):
+                continue  # this local minute does not exist on this date
             if now_m != last_now:
                 now = Z.epoch_at(zone, date, now_m // 60, now_m % 60, 30)
                 clk.move_to(float(now))
                 last_now = now_m
                 if _t.strftime("%Y-%m-%d %H:%M") != f"{date.isoformat()} {now_m // 60:02d}:{now_m % 60:02d}":
                     raise HarnessError("virtual clock/zone not in effect")
+            dj = job.get("date")
             for days in sets:
-                check(res, zone, wd, now_m, start_m, days, D, "fn")
+                check(res, zone, wd, now_m, start_m, days, D, "fn", dj)
                 res.evals += 1
                 if days:
                     res.kcount += 1
             for days in sets[::5]:
-                check(res, zone, wd, now_m, start_m, days, D, "schedule")
+                check(res, zone, wd, now_m, start_m, days, D, "schedule", dj)
                 res.evals += 1
+        # second enumeration order: one (start, day set) asked again and again as the clock advances through the day
+        # (an answer must not be remembered from an earlier time of the same day)
+        for days in sets[1:]:
+            for start_m in ((1, 720, 1439) if "date" in job else (1, 60, 720, 1380, 1439)):
+                for now_m in sorted({0, start_m - 1, start_m, start_m + 1, 1439}):
+                    if not 0 <= now_m < 1440 or not Z.local_to_epochs(zone, date, now_m // 60, now_m % 60, 30):
+                        continue
+                    clk.move_to(float(Z.epoch_at(zone, date, now_m // 60, now_m % 60, 30)))
+                    check(res, zone, wd, now_m, start_m, days, D, "fn", job.get("date"))
+                    res.evals += 1
+                    res.kcount += 1
     res.outcome((zone, wd))
     if wd == 2 and zone == "America/New_York":
         res.sample({"zone": zone, "local_now": "Wednesday 23:00:30", "start": "22:59", "days": ["Wednesday", "Friday"], "expected": ref_next_run(2, 1380, 1379, {2, 4})})
@@ -137,10 +170,10 @@ def replay(case):
 
     res = Res()
     set_zone(case["zone"])
-    date = MONDAY + datetime.timedelta(days=case["weekday"])
+    date = datetime.date.fromisoformat(case["date"]) if case.get("date") else MONDAY + datetime.timedelta(days=case["weekday"])
     with Clock(0.0) as clk:
         clk.move_to(float(Z.epoch_at(case["zone"], date, case["now_m"] // 60, case["now_m"] % 60, 30)))
-        check(res, case["zone"], case["weekday"], case["now_m"], case["start_m"], tuple(case["days"]), list(Days), case["via"])
+        check(res, case["zone"], case["weekday"], case["now_m"], case["start_m"], tuple(case["days"]), list(Days), case["via"], case.get("date"))
     return res.violations
 
 
